@@ -24,9 +24,10 @@ struct Extract {
     space: &'static str,
     names: Vec<NameSpec>,
     out_relative: bool,
-    /// strace every case (true) or only the representative subset: names of <= 2 components and
-    /// 3-component names over the core alphabet (false)
+    /// strace every case (true) or only the representative subset: names of <= 2 components (false)
     trace_all: bool,
+    /// thorough tier: the subset also holds the 3-component names over the core alphabet
+    trace_core3: bool,
     runner: Runner,
     scratch: Scratch,
 }
@@ -39,7 +40,7 @@ struct ModeBits {
 }
 
 impl Extract {
-    fn new(space: &'static str, names: Vec<NameSpec>, out_relative: bool, trace_all: bool) -> Extract {
+    fn new(space: &'static str, names: Vec<NameSpec>, out_relative: bool, trace_all: bool, trace_core3: bool) -> Extract {
         let want_strace = std::env::var("C11_STRACE").map(|v| v != "none").unwrap_or(true);
         let runner = match Runner::detect(want_strace) {
             Ok(r) => r,
@@ -59,7 +60,7 @@ impl Extract {
             Ok("subset") => false,
             _ => trace_all,
         };
-        Extract { space, names, out_relative, trace_all, runner, scratch }
+        Extract { space, names, out_relative, trace_all, trace_core3, runner, scratch }
     }
     fn decode(&self, i: u64) -> (ModeBits, &NameSpec) {
         let d = gen::mixed_radix(i, &[2, 2, 2, self.names.len() as u64]);
@@ -142,7 +143,7 @@ impl Space for Extract {
         // ---- run between two snapshots
         let (before, _) = jail::snapshot(&root);
         let core_only = spec.comps.iter().all(|&c| names::CORE.contains(&names::FULL[c]));
-        let traced = self.runner.strace && (self.trace_all || spec.comps.len() <= 2 || (spec.comps.len() == 3 && core_only));
+        let traced = self.runner.strace && (self.trace_all || spec.comps.len() <= 2 || (self.trace_core3 && spec.comps.len() == 3 && core_only));
         let log_path = self.scratch.path(&format!("logs/t{i}.log"));
         let ro = self.runner.run(&j, &args, if traced { Some(log_path.as_path()) } else { None });
         let (after, contents) = jail::snapshot(&root);
@@ -321,8 +322,8 @@ fn sizes(tier: Tier) -> ((usize, usize), (usize, usize)) {
 fn build(name: &str, _arg: &str, tier: Tier) -> Box<dyn Space> {
     let (g, rel) = sizes(tier);
     match name {
-        "grammar" => Box::new(Extract::new("grammar", names::enumerate(g.0, g.1), false, false)),
-        "relout" => Box::new(Extract::new("relout", names::enumerate(rel.0, rel.1), true, true)),
+        "grammar" => Box::new(Extract::new("grammar", names::enumerate(g.0, g.1), false, false, tier == Tier::Thorough)),
+        "relout" => Box::new(Extract::new("relout", names::enumerate(rel.0, rel.1), true, true, true)),
         _ => panic!("space {name}"),
     }
 }
@@ -334,7 +335,7 @@ fn main() {
         // and every path the tool created, for four minimal cases
         std::env::set_var("C11_DEBUG", "1");
         std::env::set_var("C11_STRACE", "none");
-        let sp = Extract::new("grammar", names::enumerate(2, 3), false, false);
+        let sp = Extract::new("grammar", names::enumerate(2, 3), false, false, false);
         for pat in ["..\\B.txt", "\\<ANCHOR>\\B.txt"] {
             let k = sp.names.iter().position(|n| n.pattern() == pat).expect("name in grammar") as u64;
             for mode in [4u64, 6] {
@@ -378,7 +379,7 @@ fn main() {
         eprintln!("warning: strace is not usable here; only the snapshot observer decides");
         c.assume("strace unavailable on this machine: observer (ii) did not run");
     } else {
-        c.assume("observer (ii) on every case of `relout` and, in `grammar`, on every name of <= 2 components or of 3 components over the core alphabet (all quick cases): strace -f -y restricted to mutating path-taking calls; only calls that succeeded are judged (paths normalised lexically, the jail holds no symlinks); allowed targets: out/, <jail>/home, /dev (devices, not /dev/shm), /proc");
+        c.assume("observer (ii) on every case of `relout` and, in `grammar`, on every name of <= 2 components (thorough: also every 3-component name over the core alphabet): strace -f -y restricted to mutating path-taking calls; only calls that succeeded are judged (paths normalised lexically, the jail holds no symlinks); allowed targets: out/, <jail>/home, /dev (devices, not /dev/shm), /proc");
     }
     c.rule = format!(
         "case = (entry name, preserve-paths, patch chain, selection); names = prefix x body, body = components joined by independently chosen separators; space `grammar` (absolute --output): every body of <= {} components over the full 10-class alphabet plus every body of {} components over the core alphabet {{.., a, empty, B.txt}}, x 6 prefixes (empty first component only behind a rooted prefix); space `relout` (relative --output ../out): bodies <= {} full / {} core; one adversarial + one benign entry per archive (patch chain: base and patch both carry the adversarial name, distinct tokens). Non-trivial = the tool materialised the adversarial entry somewhere (its unique content token was found on disk); distinct by (space, name, modes). err_return = nothing was extracted at all (refusal).",
